@@ -294,7 +294,13 @@ impl Future for RefReq {
 
 impl Drop for RefReq {
     fn drop(&mut self) {
-        self.w.lock().unwrap().cells[self.id].consumer_gone = true;
+        // the registration dies with the future (the waker is dropped outside the lock)
+        let stale = {
+            let mut w = self.w.lock().unwrap();
+            w.cells[self.id].consumer_gone = true;
+            w.cells[self.id].waker.take()
+        };
+        drop(stale);
     }
 }
 
@@ -330,7 +336,12 @@ impl Stream for RefSub {
 
 impl Drop for RefSub {
     fn drop(&mut self) {
-        self.w.lock().unwrap().cells[self.id].consumer_gone = true;
+        let stale = {
+            let mut w = self.w.lock().unwrap();
+            w.cells[self.id].consumer_gone = true;
+            w.cells[self.id].waker.take()
+        };
+        drop(stale);
     }
 }
 
@@ -1128,7 +1139,8 @@ impl RefRt {
                         c.resolved_once = true;
                         c.version += 1;
                     }
-                    let wake = if accept { c.waker.take() } else { None };
+                    // (a future that no longer exists is not woken: its channel / its shared state is gone)
+                    let wake = if accept && !c.consumer_gone { c.waker.take() } else { None };
                     w.resolve_log.push((nonce, told_ok));
                     drop(w);
                     if let Some(wk) = wake {
@@ -1142,7 +1154,9 @@ impl RefRt {
                     let mut wake = None;
                     if !c.legacy {
                         c.version += 1; // in the legacy API dropping a request wakes nobody
-                        wake = c.waker.take();
+                        if !c.consumer_gone {
+                            wake = c.waker.take();
+                        }
                     }
                     drop(w);
                     if let Some(wk) = wake {
